@@ -34,6 +34,7 @@ Definition gen_send_result_deadline_ms : N := 0%%N.
 Definition gen_yield_retry_delay_ms : N := 0%%N.
 Definition gen_yield_retry_keeps_invocation : option bool := Some false.
 Definition gen_invocation_drops : list (string * string * bool) := [("translator failed", "", false)].
+Definition gen_peer_close_bounds_write : list (string * string * option bool) := [("translator failed", "", Some false)].
 Definition gen_yield_stops_timer_before_retry : option bool := Some false.
 Definition gen_cancel_waits_only_if_interrupt_sent : option bool := Some false.
 Definition gen_queue_makes : list (string * string * string) := [].
@@ -159,6 +160,7 @@ def skeleton_report():
     except OSError:
         pass
     rep["bad_invocation_drops"] = re.findall(r'\(\s*"(router\.[^"]+)",\s*"([A-Za-z_]+\.go:\d+)"\s*\)', bl[-1]) if bl else []
+    rep["unbounded_peer_closes"] = re.findall(r'\(\s*"(transport\.[^"]+)",\s*"([A-Za-z_]+\.go:\d+)"\s*\)', bl[-2]) if len(bl) > 1 else []
     rep["ok"] = True
     return rep
 
